@@ -6,7 +6,7 @@ from .analysis import Facts
 def main(prop):
     mod = importlib.import_module("harness.checks.%s" % prop)
     chk = getattr(mod, prop)()
-    root = os.path.join(common.VERIF, "replays", prop)
+    root = os.path.join(common.OUT, "replays", prop)
     groups = {}
     for n in sorted(os.listdir(root)):
         d = os.path.join(root, n)
